@@ -74,31 +74,32 @@ theorem mem_sortBy {α} (key : α → String) (l : List α) (y : α) (h : y ∈ 
   · simp at h
 
 section
-variable (sp : Spell) (hsp : SpellStd sp) (env : SEnv) (scope : List Sym) (hsc : ScopeOK scope)
+variable (sp : Spell) (hsp : SpellStd sp) (env : SEnv) (sc : List Binding) (hsc : ThFree sc) (srt : Bool)
+  (toS : Term → Sexp) (scope0 : List Sym)
 include hsp hsc
 
 /-- reading a chain of stores -/
 theorem rd_storeChain (idx e : Ty) : ∀ (l : List (Term × Term)),
-    (∀ kv ∈ l, Reads sp env scope kv.1 ∧ Reads sp env scope kv.2 ∧ tyD kv.1 = idx ∧ tyD kv.2 = e) →
-    ∀ (accS : Sexp) (accT : Term), rd env (scope.map Binding.var) accS = .ok (accT, .array idx e) →
-    rd env (scope.map Binding.var)
-        (l.foldl (fun acc kv => Sexp.list [.atom (sp "walk_array_value:0"), acc, toSexpWith sp kv.1, toSexpWith sp kv.2]) accS)
-      = .ok (l.foldl (fun acc kv => Term.node .arrayStore [acc, unfoldAV kv.1, unfoldAV kv.2] .none) accT, .array idx e)
+    (∀ kv ∈ l, Reads env sc srt toS kv.1 ∧ Reads env sc srt toS kv.2 ∧ tyD kv.1 = idx ∧ tyD kv.2 = e) →
+    ∀ (accS : Sexp) (accT : Term), rd env sc accS = .ok (accT, .array idx e) →
+    rd env sc
+        (l.foldl (fun acc kv => Sexp.list [.atom (sp "walk_array_value:0"), acc, toS kv.1, toS kv.2]) accS)
+      = .ok (l.foldl (fun acc kv => Term.node .arrayStore [acc, unfoldAVw srt kv.1, unfoldAVw srt kv.2] .none) accT, .array idx e)
   | [], _, accS, accT, h => h
   | kv :: l, hl, accS, accT, h => by
     simp only [List.foldl_cons]
     obtain ⟨hk, hv, htk, htv⟩ := hl kv (by simp)
     apply rd_storeChain idx e l (fun x hx => hl x (List.mem_cons_of_mem _ hx))
     rw [spell sp hsp "walk_array_value:0" "store" (by decide),
-      rd_op env scope hsc "store" (by decide) _ [(accT, .array idx e), U kv.1, U kv.2]
+      rd_op env sc hsc "store" (by decide) _ [(accT, .array idx e), U srt kv.1, U srt kv.2]
         (by simp [rdList, h, hk.2, hv.2]) (by simp)]
     simp only [U, htk, htv]
     exact ap_store _ _ _ _ _
 
 theorem reads_arrayValue (p : Payload) (args : List Term) (τ : Ty)
-    (hargs : ∀ a ∈ args, Reads sp env scope a) (hty : (Term.node .arrayValue args p).typeOf = some τ)
-    (hS : stdTy .arrayValue p (args.map tyD) = some τ) (hok : nodeOK env scope .arrayValue p args = true) :
-    Reads sp env scope (.node .arrayValue args p) := by
+    (hargs : ∀ a ∈ args, Reads env sc srt toS a) (hty : (Term.node .arrayValue args p).typeOf = some τ)
+    (hS : stdTy .arrayValue p (args.map tyD) = some τ) (hok : nodeOK env scope0 .arrayValue p args = true) :
+    NodeReads sp env sc srt toS .arrayValue args p := by
   simp only [stdTy] at hS
   split at hS
   · next ts idx dT restT hts =>
@@ -118,37 +119,43 @@ theorem reads_arrayValue (p : Payload) (args : List Term) (τ : Ty)
       have hse' : SortOK env dT = true := by
         rw [hdty] at hse; simpa [hd] using hse
       -- the sorted assignments
-      let S := sortBy (fun kv : Term × Term => hrStr kv.1) (pairsOf rest)
-      have hS1 : sortBy (fun e : (Term × Term) × (Sexp × Sexp) => hrStr e.1.1)
-          ((pairsOf rest).zip (pairsOf (rest.map (toSexpWith sp))))
-          = S.map (fun kv => (kv, (toSexpWith sp kv.1, toSexpWith sp kv.2))) := by
+      let S := if srt then sortBy (fun kv : Term × Term => hrStr kv.1) (pairsOf rest) else pairsOf rest
+      have hS1 : (if srt then sortBy (fun e : (Term × Term) × (Sexp × Sexp) => hrStr e.1.1)
+          ((pairsOf rest).zip (pairsOf (rest.map toS))) else (pairsOf rest).zip (pairsOf (rest.map toS)))
+          = S.map (fun kv => (kv, (toS kv.1, toS kv.2))) := by
         rw [pairsOf_map, zip_map_self]
-        exact sortBy_map _ _ _ (fun _ => rfl) _
-      have hS2 : sortBy (fun e : (Term × Term) × (Term × Term) => hrStr e.1.1)
-          ((pairsOf rest).zip (pairsOf (rest.map unfoldAV)))
-          = S.map (fun kv => (kv, (unfoldAV kv.1, unfoldAV kv.2))) := by
-        rw [pairsOf_map, zip_map_self]
-        exact sortBy_map _ _ _ (fun _ => rfl) _
-      have hunf : unfoldAV (.node .arrayValue (d :: rest) (.ty idx)) =
-          S.foldl (fun acc kv => Term.node .arrayStore [acc, unfoldAV kv.1, unfoldAV kv.2] .none)
-            (.node .arrayValue [unfoldAV d] (.ty idx)) := by
-        rw [unfoldAV]
-        · rw [hS2, List.foldl_map]
+        cases srt
         · rfl
-      apply reads_of sp env scope _ _ _ hty hunf
-      rw [toSexpWith_node]
-      simp only [nodeSexp, List.map_cons, if_true, storeChain]
+        · exact sortBy_map _ _ _ (fun _ => rfl) _
+      have hS2 : (if srt then sortBy (fun e : (Term × Term) × (Term × Term) => hrStr e.1.1)
+          ((pairsOf rest).zip (pairsOf (rest.map (unfoldAVw srt)))) else (pairsOf rest).zip (pairsOf (rest.map (unfoldAVw srt))))
+          = S.map (fun kv => (kv, (unfoldAVw srt kv.1, unfoldAVw srt kv.2))) := by
+        rw [pairsOf_map, zip_map_self]
+        cases srt
+        · rfl
+        · exact sortBy_map _ _ _ (fun _ => rfl) _
+      have hunf : unfoldAVw srt (.node .arrayValue (d :: rest) (.ty idx)) =
+          S.foldl (fun acc kv => Term.node .arrayStore [acc, unfoldAVw srt kv.1, unfoldAVw srt kv.2] .none)
+            (.node .arrayValue [unfoldAVw srt d] (.ty idx)) := by
+        conv => lhs; unfold unfoldAVw
+        simp only [List.map_cons]
+        rw [hS2, List.foldl_map]
+      apply reads_of sp env sc srt toS _ _ _ _ _ hty hunf
+      simp only [nodeSexp, List.map_cons, storeChain]
       rw [hS1, List.map_map, List.foldl_map]
       -- every assignment is read back with the right sorts
-      have hmem : ∀ kv ∈ S, Reads sp env scope kv.1 ∧ Reads sp env scope kv.2 ∧ tyD kv.1 = idx ∧ tyD kv.2 = dT := by
+      have hmem : ∀ kv ∈ S, Reads env sc srt toS kv.1 ∧ Reads env sc srt toS kv.2 ∧ tyD kv.1 = idx ∧ tyD kv.2 = dT := by
         intro kv hkv
-        have hin := mem_sortBy _ _ _ hkv
+        have hin : kv ∈ pairsOf rest := by
+          cases srt
+          · exact hkv
+          · exact mem_sortBy _ _ _ hkv
         have ⟨h1, h2⟩ := mem_pairsOf rest kv hin
         refine ⟨hargs _ (List.mem_cons_of_mem _ h1), hargs _ (List.mem_cons_of_mem _ h2), ?_⟩
         rw [← hrest, pairsOf_map, List.all_map, List.all_eq_true] at hpairs
         have := hpairs kv hin
         simpa using this
-      refine rd_storeChain sp hsp env scope hsc idx dT S hmem _ _ ?_
+      refine rd_storeChain sp hsp env sc hsc srt toS idx dT S hmem _ _ ?_
       -- the constant array
       have hsort : sortStd env (arrTySexp idx d) = .ok (.array idx dT) := by
         have : arrTySexp idx d = tySexp (.array idx dT) := by
